@@ -133,6 +133,7 @@ type VC struct {
 	implSeen map[string]bool
 	verifyingBody bool
 	absQuant bool // quantifiers over slice indices are rewritten to absolute addresses
+	jsonAx   bool
 }
 
 func (vc *VC) fresh(prefix, sort string) string {
